@@ -41,3 +41,31 @@ Theorem only_scheduled_taskers_run : forall (O : TimeOps) (P : prog O) n s s' e,
   forall x, In x (map snd (runlog s')) -> In x (map snd (runlog s)) \/ In x (map (rtid O) (ready s)).
 Proof. exact ticks_runlog. Qed.
 Print Assumptions only_scheduled_taskers_run.
+
+(* For a scheduled framer t that no other framer can reach (it is nobody's auxiliary, fiat target or done
+   target): invariant Q t = "alive and neither started nor running => no active frame"; it is preserved by
+   EVERY runner send to any tasker ... *)
+Require Import V.Kernel.SweepProofs V.Kernel.GenInd V.Kernel.Basics.
+Theorem idle_framer_has_no_active_frames_inv : forall (O : TimeOps) (P : prog O) t,
+  (forall a, a <> t -> ~ reach O P a t) ->
+  forall a c w, t < length (tss w) -> Q O t w -> Q O t (fst (o_send (top P) a c w)).
+Proof. exact Q_send. Qed.
+Print Assumptions idle_framer_has_no_active_frames_inv.
+
+(* ... so the ABORT of the final sweep leaves it ABORTED and (its generator being alive) with no active
+   frame whatever state it was in: all its entered outline was exited bottom-up by exitAll ... *)
+Theorem swept_framer_is_aborted_and_exited : forall (O : TimeOps) (P : prog O) t,
+  (forall a, a <> t -> ~ reach O P a t) ->
+  forall w w' r, t < length (tss w) -> Q O t w ->
+  o_send (top P) t CAbort w = (w', Some r) ->
+  st (gett w' t) = Aborted /\
+  (alive (gett w' t) = true -> active (gett w' t) = None /\ actives (gett w' t) = []).
+Proof. exact abort_leaves_nothing. Qed.
+Print Assumptions swept_framer_is_aborted_and_exited.
+
+(* ... and the rest of the sweep (sends to other taskers) cannot change that *)
+Theorem swept_framer_stays_aborted : forall (O : TimeOps) (P : prog O) t,
+  (forall a, a <> t -> ~ reach O P a t) ->
+  forall a c w, a <> t -> core O (gett (fst (o_send (top P) a c w)) t) = core O (gett w t).
+Proof. exact aborted_stays. Qed.
+Print Assumptions swept_framer_stays_aborted.
